@@ -27,6 +27,7 @@ fn param_names(f: &str) -> &'static [&'static str] {
     "replace" => &["input", "pattern", "replacement", "flags"],
     "split" => &["string", "delimiter"],
     "number" => &["from", "grouping separator", "decimal separator"],
+    "sort" => &["list", "precedes"],
     _ => &[],
   }
 }
@@ -49,16 +50,41 @@ pub fn run_case(c: &J) -> J {
   let args: Vec<J> = c["args"].as_array().cloned().unwrap_or_default();
   let scope = Scope::default();
   let mut enc_args = vec![];
+  // sort(): the ordering function named by `cmp` is built from its FEEL text and bound as the second argument
+  let lambda = match c["cmp"].as_str() {
+    Some("lt") => Some("function(x, y) x < y"),
+    Some("gt") => Some("function(x, y) x > y"),
+    Some("le") => Some("function(x, y) x <= y"),
+    Some("ge") => Some("function(x, y) x >= y"),
+    Some("a-lt") => Some("function(x, y) x.a < y.a"),
+    Some("null") => Some("function(x, y) null"),
+    Some("const") => Some("function(x, y) true"),
+    Some("arity1") => Some("function(x) true"),
+    Some("arity3") => Some("function(x, y, z) x < y"),
+    _ => None,
+  };
   for (i, a) in args.iter().enumerate() {
-    let v: Value = dec_value(a);
+    let mut v: Value = dec_value(a);
+    if i == 1 {
+      if let Some(text) = lambda {
+        let empty = Scope::default();
+        v = match dmntk_feel_parser::parse_expression(&empty, text, false).and_then(|n| dmntk_feel_evaluator::evaluate(&empty, &n)) {
+          Ok(f @ Value::FunctionDefinition(..)) => f,
+          other => tool_error(&format!("the ordering function {} did not evaluate to a function: {:?}", text, other.map(|v| v.to_string()))),
+        };
+      }
+    }
     enc_args.push(enc_value(&v));
     scope.set_entry(&Name::from(format!("a{}", i + 1)), v);
   }
   let names: Vec<String> = (1..=args.len()).map(|i| format!("a{}", i)).collect();
   let pos_text = format!("{}({})", f, names.join(", "));
   let mut rec = json!({"fn": f, "args": enc_args, "pos": eval(&scope, &pos_text), "text": pos_text});
-  if c.get("re").is_some() {
+  if !c["re"].is_null() {
     rec["re"] = c["re"].clone();
+  }
+  if !c["cmp"].is_null() {
+    rec["cmp"] = c["cmp"].clone();
   }
   let pn = param_names(f);
   // the named form exists when every argument has a parameter name (varargs forms have none)
@@ -116,7 +142,7 @@ pub fn check(mut ctx: Ctx, replay: Option<J>) -> ! {
     } else {
       format!("{}:{}:arity{}", r["fn"].as_str().unwrap_or(""), form, args.len())
     };
-    ctx.reject(&[sig], json!({"case": {"fn": r["fn"], "args": r["args"]}, "record": r}), &format!("{} : {}({}) -> {} / named {}", why, r["fn"].as_str().unwrap_or(""), args.join(", "), dec_value(&r["pos"]), r.get("named").map(|n| dec_value(n).to_string()).unwrap_or_default()));
+    ctx.reject(&[sig], json!({"case": {"fn": r["fn"], "args": r["args"], "cmp": r["cmp"], "re": r["re"]}, "record": r}), &format!("{} : {}({}) -> {} / named {}", why, r["fn"].as_str().unwrap_or(""), args.join(", "), dec_value(&r["pos"]), r.get("named").map(|n| dec_value(n).to_string()).unwrap_or_default()));
   }
   let n = recs.len() as u64;
   ctx.cov("evaluations", json!(n + recs.iter().filter(|r| r.get("named").is_some()).count() as u64));
